@@ -62,6 +62,21 @@ def run_compare(case, what=""):
     cp = dict(case, spec=plain)
     run_p = oracle.run_or_violation(tp, cp, what="plain-mode program" + what)
     oracle.compare_outputs(cp, run_p, expected=exp, what="plain-mode program" + what)
+    # every tensor variable that both programs leave behind (inputs, swizzled / partitioned versions, intermediates) holds the
+    # same tensor in both: the metrics-only statements may add variables, never change what a shared name holds
+    from .. import hfmodel as M_
+    for var in sorted(set(run_m["ns"]) & set(run_p["ns"])):
+        a, b = run_m["ns"][var], run_p["ns"][var]
+        if not (isinstance(a, M_.Tensor) and isinstance(b, M_.Tensor)) or "_" not in var:
+            continue
+        try:
+            da, db = (a.getRankIds(), a.toDict()), (b.getRankIds(), b.toDict())
+        except M_.ModelError:
+            continue
+        if da != db:
+            raise Violation("variable %s holds rank ids %r / %d elements after the metrics-mode program%s but %r / %d elements after "
+                            "the plain-mode program" % (var, da[0], len(da[1]), what, db[0], len(db[1])),
+                            sig="shared-variable-differs", details={"yaml": S.to_yaml(spec), "text": tm, "plain_text": tp})
     hm, hp = loop_headers(tm), loop_headers(tp)
     differs = hm != hp
     swz_m = len(re.findall(r"swizzleRanks", tm)) != len(re.findall(r"swizzleRanks", tp))
